@@ -35,6 +35,16 @@ def mkLit (isInt : Bool) (q : Rat) : Expr :=
     shortcut that needs a fresh Index object); the correspondence skips such cases and counts them -/
 def unsupported : Expr := .term { cls := "@unsupported", key := "", shape := [] }
 
+def isUnsupported : Expr → Bool
+  | .term d => d.cls == "@unsupported"
+  | _ => false
+
+/-- sequencing that propagates failure and the `unsupported` marker -/
+def bindU (x : Option Expr) (f : Expr → Option Expr) : Option Expr :=
+  match x with
+  | none => none
+  | some e => if isUnsupported e then some unsupported else f e
+
 def trueScalar (e : Expr) : Bool := (shape e).isEmpty && (fi e).isEmpty
 
 namespace FI'
@@ -168,12 +178,8 @@ def mkImag : Expr → Option Expr
 def mkIndexSum : Expr → Nat → Option Expr
   | .zero sh f, j => if FI.has j f then some (.zero sh (FI.remove j f)) else none
   | .op .product x [a, b], j =>
-    if !FI.has j (fi a) then (match mkIndexSum b j with
-      | some sb => mkProduct a sb
-      | none => none)
-    else if !FI.has j (fi b) then (match mkIndexSum a j with
-      | some sa => mkProduct b sa
-      | none => none)
+    if !FI.has j (fi a) then bindU (mkIndexSum b j) (fun sb => mkProduct a sb)
+    else if !FI.has j (fi b) then bindU (mkIndexSum a j) (fun sa => mkProduct b sa)
     else some (.op .indexSum [] [.op .product x [a, b], .mi [.free j]])
   | e, j => if FI.has j (fi e) then some (.op .indexSum [] [e, .mi [.free j]]) else none
 
@@ -237,13 +243,11 @@ def mkIndexedF : Nat → Expr → List Idx → Option Expr
        | some f' => some (.zero [] f')
        | none => none)
     | .op .sum _ [a, b] =>
-      (match mkIndexedF fuel a is, mkIndexedF fuel b is with
-       | some x, some y => mkSum x y
-       | _, _ => none)
-    | .op .indexSum _ [A', .mi [.free j]] =>
-      (match mkIndexedF fuel A' is with
-       | some x => mkIndexSum x j
-       | none => none)
+      bindU (mkIndexedF fuel a is) (fun x => bindU (mkIndexedF fuel b is) (fun y => mkSum x y))
+    | .op .indexSum x [A', .mi [.free j]] =>
+      -- indexing with the summation index itself stays outside the sum (no capture)
+      if is.contains (.free j) then plainIndexed (.op .indexSum x [A', .mi [.free j]]) is
+      else bindU (mkIndexedF fuel A' is) (fun x => mkIndexSum x j)
     | .op .listTensor x xs =>
       (match k with
        | .fixed v => (match xs[v]? with
